@@ -1,4 +1,5 @@
 import GqlProofs.Lexer.Progress
+import GqlProofs.Parser.FuelSchema
 /-
   C01 — lexing is total (lexer part).  Theorems about `Gql.Lexer.lexAll`, the function the driver
   runs for op `lex` and that the correspondence check compares with lexer.ReadToken.
@@ -27,9 +28,8 @@ theorem lexFuel_never_outOfFuel (fuel : Nat) (rest : Bytes) (c : Cur) (acc : Lis
       · simp
       · rename_i hk
         have : rest'.length < n := by
-          rcases hp with hp | hp
-          · exact absurd hp hk
-          · omega
+          have := hp.2 hk
+          omega
         exact ih rest' c' _ this ts
 
 /-- Lexing to the end never runs out of fuel: the pull loop terminates on every byte string,
@@ -52,10 +52,7 @@ theorem lexFuel_len (fuel : Nat) (rest : Bytes) (c : Cur) (acc : List Token) :
       split
       · simp [LexOut.tokens]
       · rename_i hk
-        have hlt : rest'.length < rest.length := by
-          rcases hp with hp | hp
-          · exact absurd hp hk
-          · exact hp
+        have hlt : rest'.length < rest.length := hp.2 hk
         have := ih rest' c' (t :: acc)
         simp at this
         omega
@@ -68,8 +65,98 @@ theorem C01_lexAll_len (inp : Bytes) : (lexAll inp).tokens.length ≤ inp.length
 
 /-- Every step of the lexer either fails, returns EOF, or strictly consumes input. -/
 theorem C01_lex_progress (rest : Bytes) (c : Cur) (t : Token) (rest' : Bytes) (c' : Cur)
-    (h : readToken rest c = .tok t rest' c') : t.kind = .eof ∨ rest'.length < rest.length := by
+    (h : readToken rest c = .tok t rest' c') :
+    rest'.length ≤ rest.length ∧ (t.kind ≠ .eof → rest'.length < rest.length) := by
   have := readToken_progress rest c
   rw [h] at this
   exact this
 
+open Gql.Parser
+
+/-! ## BEGIN parser section (theorems `C01_parse_…`; the lexer theorems of C01 go outside this section)
+
+  The parser model is fuelled: every loop (`many`/`some` bodies, directives, `&`/`|` lists, the
+  document loops, the comment-group loop) and every recursion cycle (values, types, selection
+  sets) spends one unit of fuel per iteration / per level; running dry sets the ghost flag `oof`,
+  which the entry points report as `Result.outOfFuel`.  The entry points hand out
+  `fuelFor inp = inp.length + 2`.  The theorems below say that this is always enough — for every
+  input and every token limit — so the Go recursion depth and every loop count are bounded by
+  the number of input bytes + 2 (each level / iteration consumes at least one real token, i.e. at
+  least one byte, or sets the sticky error, which stops every loop).  The measure behind the proof
+  is `mu` (`GqlProofs/Parser/Measure.lean`): bytes not yet lexed + 1 for a pending look-ahead
+  token + 1, and 0 once the sticky error is set.
+-/
+
+/-- the flag is never set, whatever the input and the limit (query grammar) -/
+theorem C01_parse_fuel_query_state (limit : Nat) (inp : Bytes) : (runQuery limit inp).2.oof = false :=
+  runQuery_oof limit inp
+
+/-- `ParseQuery` / `ParseQueryWithTokenLimit` never run out of fuel -/
+theorem C01_parse_fuel_query (limit : Nat) (inp : Bytes) : parseQuery limit inp ≠ .outOfFuel := by
+  unfold parseQuery Result.ofRun
+  rw [runQuery_oof]
+  simp only [Bool.false_eq_true, ↓reduceIte]
+  split <;> simp
+
+/-- the flag is never set (schema grammar, any source index) -/
+theorem C01_parse_fuel_schema_state (limit src : Nat) (inp : Bytes) : (runSchema limit src inp).2.oof = false :=
+  runSchema_oof limit src inp
+
+theorem C01_parse_fuel_schemaSrc (limit src : Nat) (b : Bool) (inp : Bytes) :
+    parseSchemaSrc limit src b inp ≠ .outOfFuel := by
+  have h : Result.ofRun (runSchema limit src inp) ≠ .outOfFuel := by
+    unfold Result.ofRun
+    rw [runSchema_oof]
+    simp only [Bool.false_eq_true, ↓reduceIte]
+    split <;> simp
+  unfold parseSchemaSrc
+  cases h1 : Result.ofRun (runSchema limit src inp) with
+  | ok d => simp
+  | error e => simp
+  | outOfFuel => exact absurd h1 h
+
+/-- `ParseSchema` / `ParseSchemaWithLimit` never run out of fuel -/
+theorem C01_parse_fuel_schema (limit : Nat) (inp : Bytes) : parseSchema limit inp ≠ .outOfFuel :=
+  C01_parse_fuel_schemaSrc limit 0 false inp
+
+/-- `ParseSchemas` / `ParseSchemasWithLimit` never run out of fuel -/
+theorem C01_parse_fuel_schemas (limit : Nat) (srcs : List (Bool × Bytes)) : parseSchemas limit srcs ≠ .outOfFuel := by
+  unfold parseSchemas
+  generalize SchemaDoc.empty = acc
+  generalize 0 = i
+  induction srcs generalizing i acc with
+  | nil => simp [parseSchemasFrom]
+  | cons x rest ih =>
+    obtain ⟨bi, inp⟩ := x
+    unfold parseSchemasFrom
+    cases h : parseSchemaSrc limit i bi inp with
+    | ok d => exact ih _ _
+    | error e => simp
+    | outOfFuel => exact absurd h (C01_parse_fuel_schemaSrc limit i bi inp)
+
+/-- result shape: a document or an error, nothing else -/
+theorem C01_parse_result_shape_query (limit : Nat) (inp : Bytes) :
+    (∃ d, parseQuery limit inp = .ok d) ∨ (∃ e, parseQuery limit inp = .error e) := by
+  cases h : parseQuery limit inp with
+  | ok d => exact .inl ⟨d, rfl⟩
+  | error e => exact .inr ⟨e, rfl⟩
+  | outOfFuel => exact absurd h (C01_parse_fuel_query limit inp)
+
+theorem C01_parse_result_shape_schema (limit : Nat) (inp : Bytes) :
+    (∃ d, parseSchema limit inp = .ok d) ∨ (∃ e, parseSchema limit inp = .error e) := by
+  cases h : parseSchema limit inp with
+  | ok d => exact .inl ⟨d, rfl⟩
+  | error e => exact .inr ⟨e, rfl⟩
+  | outOfFuel => exact absurd h (C01_parse_fuel_schema limit inp)
+
+/-- no program ever increases the measure: work is bounded by the input that is left -/
+theorem C01_parse_measure_monotone {α : Type} (limit : Nat) (p : Prog α) (s : PState) :
+    mu (run limit p s).2 ≤ mu s :=
+  run_mu_le limit p s
+
+/-! non-vacuity: the model really parses (kernel-evaluated), including a repo fuzz-style input `{[` -/
+example : (parseQuery 0 [123, 97, 125]).isOk = true := by decide
+example : (parseQuery 0 [123, 91]).isOk = false := by decide
+example : (parseSchema 0 [116,121,112,101,32,65,123,97,58,66,125]).isOk = true := by decide
+
+/-! ## END parser section -/
